@@ -1,0 +1,24 @@
+//go:build verif
+
+// Contracts for the verification machinery in /verif (govc). Comment-only file.
+
+package main
+
+//@ func (*agentRunner).LoadAgent
+//@ property C20
+//@ ensures [interval-accepted-only-inside-window] err == nil ==> runner.Agent != nil
+//@            && runner.Agent.UpdateInterval > minUpdateInterval && runner.Agent.UpdateInterval < store.ExpireInterval
+
+// start-up helpers that read files, dial the node or compare enode strings: their results are
+// arbitrary as far as LoadAgent's interval check is concerned, and they touch no agent state
+//@ func findRPC
+//@ trusted I/O helper
+//@ modifies nothing
+
+//@ func findNodeKey
+//@ trusted I/O helper
+//@ modifies nothing
+
+//@ func matchEnode
+//@ trusted string comparison helper
+//@ modifies nothing
